@@ -45,7 +45,10 @@ def apply_patch(root: str, patch_path: str) -> None:
     if r.returncode != 0:
         r = subprocess.run(["git", "apply", "--whitespace=nowarn", "-C1", patch_path], cwd=root, capture_output=True, text=True)
     if r.returncode != 0:
-        raise RuntimeError(f"patch does not apply: {r.stderr[:300]}")
+        # the code around the edit has moved (repairs made since the seed was written): same edit, fuzzy context
+        r = subprocess.run(["patch", "-p1", "-F3", "-s", "--no-backup-if-mismatch", "-i", patch_path], cwd=root, capture_output=True, text=True)
+    if r.returncode != 0:
+        raise RuntimeError(f"patch does not apply: {(r.stderr or r.stdout)[:300]}")
 
 
 RUNTIME_FILES = ("peg_parser/subheader.py", "peg_parser/tokenizer.py", "peg_parser/tokenize.py", "peg_parser/parser.py")
